@@ -78,7 +78,10 @@ claim("C08", "Lean 4 theorems about generated Chain/Invert, the generated Concat
       "For arrays of any rank and size: jnp.array_split/jnp.concatenate/jnp.stack along any axis are modelled on the (outer, axis, inner) view of row-major data and proved mutually "
       "inverse; Concatenate/Stack apply child j to exactly slice j and write exactly slice j, are lawful when the children are, and return the sum of the children's log-dets; Partial "
       "changes only the indexed positions (gather/scatter laws); Reshape/EmbedCondition only re-present the inputs; the generated Chain is composition, the generated Invert swaps "
-      "directions; slicing, merge_chains and merge_transforms never change the function; Scan/Vmap enter through their defining equivalences. The four methods and the constructors of "
+      "directions; slicing, merge_chains and merge_transforms never change the function. Scan, Vmap and _filter_scan (jax_transforms.py) are regenerated on every run (py2meth.py, sheet targets_jaxtr.py -> Gen/JaxTransforms.lean: the nested step / _scan_fn / _transform closures, "
+      "the carries, reverse=True on the inverse methods, jnp.sum of the vmapped log-dets) over the hand-written meanings of lax.scan / eqx.partition / eqx.combine / eqx.filter_vmap (Model/JaxTrWorld.lean) and proved: the four generated Scan methods ARE the generated Chain methods of the "
+      "unstacked layers for every number of heterogeneous layers (gen_scan_eq_chain; the carry of _filter_scan is the left fold over the layers, reversed iff reverse), the generated Vmap methods are the stack of the child method on (bijection i, slice i, condition i) with summed log-dets and equal the hand model "
+      "for shared or mapped parameters and condition (gen_vmap_eq_model); Flows.scanOf, the Scan of the generated premade-flow factories, IS the generated Scan. The four methods and the constructors of "
       "Concatenate/Stack/Partial/Reshape/EmbedCondition are regenerated from concatenate.py / utils.py on every run (Gen/ArrCombinators.lean) and proved equal to the hand model for every rank, "
       "axis (negative included), number of children and child behaviour, so the theorems hold of what the code says now; the generated constructors are proved to declare the C13 shape / cond_shape. "
       "Generated definitions and hand model are both run against the real "
@@ -87,7 +90,7 @@ claim("C08", "Lean 4 theorems about generated Chain/Invert, the generated Concat
       "heterogeneous layers [make_layer(key 0), ..., make_layer(key (n-1))] for every n (wrapped in the generated Invert iff invert), with the four methods of the flat chain "
       "[b0, p0, b1, p1, ...], and _add_default_permute adds nothing / Flip / Permute for dim 1 / 2 / otherwise; the real Scan / Invert(Scan) of real factory-built coupling / MAF / planar "
       "flows is compared with that chain on every run (both log-det methods).",
-      _TB + " Model/Arr.lean is a hand model tied by proof to the generated definitions and by correspondence to the code; Model/ArrJnp.lean (specs of jnp.array_split/split/concatenate/stack/squeeze/reshape/indexing) and the typing sheet targets_arrcomb.py are trusted + compared; Partial.idxs enters resolved to flat positions; lax.scan / filter_vmap themselves are JAX's; declared-shape algebra for negative axes is proved in C13's ArgCheck model. Premade flows: Model/FlowsPre.lean (Scan = Chain of the unstacked layers, filter_vmap(make_layer) = one layer per key) is trusted + compared "
+      _TB + " Model/Arr.lean is a hand model tied by proof to the generated definitions and by correspondence to the code; Model/ArrJnp.lean (specs of jnp.array_split/split/concatenate/stack/squeeze/reshape/indexing) and the typing sheet targets_arrcomb.py are trusted + compared; Partial.idxs enters resolved to flat positions; the meanings of lax.scan / eqx.partition / combine / filter_vmap (Model/JaxTrWorld.lean) are trusted + compared on real Scan / Vmap objects (incl. array conditions mapped along axis None / 0 / 1 / -1); the Vmap theorems assume 0 < axis_size; declared-shape algebra for negative axes is proved in C13's ArgCheck model. Premade flows: Model/FlowsPre.lean (Scan = Chain of the unstacked layers, filter_vmap(make_layer) = one layer per key) is trusted + compared "
       "on real flows through fj.unstack_scan; hand-stacked BNAF Scans are compared in the thorough tier (quick tier: under C01); dim 0 flows (ZeroDivisionError in the real code) are outside the statements.", "DESIGN.md §5 C08")
 
 claim("C09", "Lean 4 theorems about the mask helpers / rank assignment / per-layer masks regenerated from the source (proved equal to a hand-written executable model of the masks and masked networks) + exhaustive structural and Float/Jacobian correspondence with the real objects",
